@@ -125,6 +125,28 @@ def attr_design(a, name, tprefix, types):
     return att
 
 
+WHOLE = ("whole", "whole_elem", "whole_mapval")
+
+
+def whole_tref(a):
+    """the data type of a payload / result that IS the value"""
+    prim = {"kind": KIND[a["kind"]]}
+    leafval = rule_val(a) if a["rule"] not in ("cminlen", "cmaxlen") else None
+    contval = {"minLen": LO} if a["rule"] == "cminlen" else ({"maxLen": HI} if a["rule"] == "cmaxlen" else None)
+    if a["nest"] == "whole":
+        t = dict(prim)
+        if leafval:
+            t["val"] = leafval
+        return t
+    e = dict(prim)
+    if leafval:
+        e["val"] = leafval
+    t = {"kind": "array", "elem": e} if a["nest"] == "whole_elem" else {"kind": "map", "key": {"kind": "string"}, "elem": e}
+    if contval:
+        t["val"] = contval
+    return t
+
+
 def default_of(a):
     k = a["kind"]
     if k in INTS or k in UINTS:
@@ -198,8 +220,17 @@ def concrete(a, v):
         return None
     leaf = concrete_leaf(a, v)
     nest, cn = a["nest"], v["cn"]
-    if nest in ("direct", "alias"):
+    if nest in ("direct", "alias", "whole"):
         return leaf
+    if nest == "whole_elem":
+        return [filler(a)] * (cn - 1) + [leaf] if cn >= 1 else []
+    if nest == "whole_mapval":
+        m = {}
+        for i in range(cn - 1):
+            m["k%d" % (i + 1)] = filler(a)
+        if cn >= 1:
+            m["k%d" % cn] = leaf
+        return {"$map": m}
     if nest == "nested":
         return {"v": leaf}
     if nest == "elem":
@@ -268,8 +299,19 @@ def method_design(idx, shape, types):
     pattrs, rattrs = [], []
     http = {"routes": [{"verb": "POST", "path": "/" + mname}], "params": {}, "headers": {}, "cookies": {}}
     path = "/" + mname
+    pwhole = len(pa) == 1 and pa[0]["nest"] in WHOLE
+    rwhole = len(ra) == 1 and ra[0]["nest"] in WHOLE
     for i, a in enumerate(pa):
         n = "a%d" % (i + 1)
+        if pwhole:
+            # the element name IS the mapping of the whole payload
+            if a["loc"] == "path":
+                path += "/{" + n + "}"
+            elif a["loc"] == "query":
+                http["params"][ELEM["query"](n)] = ELEM["query"](n)
+            elif a["loc"] == "header":
+                http["headers"][ELEM["header"](n)] = ELEM["header"](n)
+            continue
         pattrs.append(attr_design(a, n, "M%dA%d" % (idx, i + 1), types))
         if a["loc"] == "path":
             path += "/{" + n + "}"
@@ -283,6 +325,8 @@ def method_design(idx, shape, types):
     resp = {"status": 200, "headers": {}, "cookies": {}}
     for j, a in enumerate(ra):
         n = "r%d" % (j + 1)
+        if rwhole:
+            continue
         rattrs.append(attr_design(a, n, "M%dR%d" % (idx, j + 1), types))
         if a["loc"] == "header":
             resp["headers"][n] = ELEM["header"](n)
@@ -295,9 +339,13 @@ def method_design(idx, shape, types):
         responses = [tagged, resp]
     http["responses"] = responses
     m = {"name": mname, "http": http}
-    if pattrs:
+    if pwhole:
+        m["payload"] = {"type": whole_tref(pa[0])}
+    elif pattrs:
         m["payload"] = {"attrs": pattrs}
-    if rattrs:
+    if rwhole:
+        m["result"] = {"type": whole_tref(ra[0])}
+    elif rattrs:
         m["result"] = {"attrs": rattrs}
     return m
 
